@@ -276,7 +276,9 @@ pub fn history_kind(input: &[u8], leg: &Leg) -> u64 {
         return 0;
     }
     if cfg!(miri) {
-        return crate::rng::fnv(input) % 4;
+        // every search costs seconds in the interpreter: a past for three
+        // cases in eight
+        return crate::rng::fnv(input) % 8;
     }
     // (per strategy, not per read script: a fault-injection run and the
     // uninterrupted run it is compared with must share their history, e.g.
